@@ -241,6 +241,7 @@ class Run:
         shutil.rmtree(tmpd, ignore_errors=True)
         os.makedirs(tmpd, exist_ok=True)
         env["TMPDIR"] = tmpd
+        env["VERIF_DRIVER_DEADLINE"] = str(max(30, to - 30))  # the driver dumps its goroutines before we kill it
         try:
             rc, out = sh(cmd, to, cwd=outdir, env=env, logf=self.log)
         finally:
